@@ -53,6 +53,7 @@ import (
 	"runtime"
 	"runtime/debug"
 	"slices"
+	"sync"
 
 	"golang.org/x/tools/go/ssa"
 
@@ -117,6 +118,7 @@ type interpreter struct {
 	cfg       *Config
 	typeCache map[string]types.Type
 	harnessState map[string]value
+	fdTick    int
 }
 
 type deferred struct {
@@ -131,7 +133,8 @@ type frame struct {
 	caller           *frame
 	fn               *ssa.Function
 	block, prevBlock *ssa.BasicBlock
-	env              map[ssa.Value]value // dynamic values of SSA variables
+	env              []value             // dynamic values of SSA variables, indexed by fnInfo.idx
+	info             *fnInfo
 	locals           []value
 	defers           *deferred
 	result           value
@@ -157,8 +160,8 @@ func (fr *frame) get(key ssa.Value) value {
 			return r
 		}
 	}
-	if r, ok := fr.env[key]; ok {
-		return r
+	if k, ok := fr.info.idx[key]; ok {
+		return fr.env[k]
 	}
 	panic(fmt.Sprintf("get: no value for %T: %v", key, key.Name()))
 }
@@ -234,35 +237,35 @@ func visitInstr(fr *frame, instr ssa.Instruction) continuation {
 		// no-op
 
 	case *ssa.UnOp:
-		fr.env[instr] = unop(fr, instr, fr.get(instr.X))
+		fr.set(instr, unop(fr, instr, fr.get(instr.X)))
 
 	case *ssa.BinOp:
-		fr.env[instr] = binop(fr.i, instr.Op, instr.X.Type(), fr.get(instr.X), fr.get(instr.Y))
+		fr.set(instr, binop(fr.i, instr.Op, instr.X.Type(), fr.get(instr.X), fr.get(instr.Y)))
 
 	case *ssa.Call:
 		fn, args := prepareCall(fr, &instr.Call)
-		fr.env[instr] = call(fr.i, fr, instr.Pos(), fn, args)
+		fr.set(instr, call(fr.i, fr, instr.Pos(), fn, args))
 
 	case *ssa.ChangeInterface:
-		fr.env[instr] = fr.get(instr.X)
+		fr.set(instr, fr.get(instr.X))
 
 	case *ssa.ChangeType:
-		fr.env[instr] = fr.get(instr.X) // (can't fail)
+		fr.set(instr, fr.get(instr.X)) // (can't fail)
 
 	case *ssa.Convert:
-		fr.env[instr] = conv(fr.i, instr.Type(), instr.X.Type(), fr.get(instr.X))
+		fr.set(instr, conv(fr.i, instr.Type(), instr.X.Type(), fr.get(instr.X)))
 
 	case *ssa.SliceToArrayPointer:
-		fr.env[instr] = sliceToArrayPointer(instr.Type(), instr.X.Type(), fr.get(instr.X))
+		fr.set(instr, sliceToArrayPointer(instr.Type(), instr.X.Type(), fr.get(instr.X)))
 
 	case *ssa.MakeInterface:
-		fr.env[instr] = iface{t: instr.X.Type(), v: fr.get(instr.X)}
+		fr.set(instr, iface{t: instr.X.Type(), v: fr.get(instr.X)})
 
 	case *ssa.Extract:
-		fr.env[instr] = fr.get(instr.Tuple).(tuple)[instr.Index]
+		fr.set(instr, fr.get(instr.Tuple).(tuple)[instr.Index])
 
 	case *ssa.Slice:
-		fr.env[instr] = slice(fr.i, fr.get(instr.X), fr.get(instr.Low), fr.get(instr.High), fr.get(instr.Max))
+		fr.set(instr, slice(fr.i, fr.get(instr.X), fr.get(instr.Low), fr.get(instr.High), fr.get(instr.Max)))
 
 	case *ssa.Return:
 		switch len(instr.Results) {
@@ -321,17 +324,17 @@ func visitInstr(fr *frame, instr ssa.Instruction) continuation {
 		fr.i.spawn(fr, instr.Pos(), fn, args)
 
 	case *ssa.MakeChan:
-		fr.env[instr] = newChan(int(fr.i.concInt(fr.get(instr.Size), true)))
+		fr.set(instr, newChan(int(fr.i.concInt(fr.get(instr.Size), true))))
 
 	case *ssa.Alloc:
 		var addr *value
 		if instr.Heap {
 			// new
 			addr = new(value)
-			fr.env[instr] = addr
+			fr.set(instr, addr)
 		} else {
 			// local
-			addr = fr.env[instr].(*value)
+			addr = fr.lookup(instr).(*value)
 		}
 		*addr = zero(mustDeref(instr.Type()))
 
@@ -349,26 +352,26 @@ func visitInstr(fr *frame, instr ssa.Instruction) continuation {
 		for i := range slice {
 			slice[i] = zero(tElt)
 		}
-		fr.env[instr] = slice[:l]
+		fr.set(instr, slice[:l])
 
 	case *ssa.MakeMap:
-		fr.env[instr] = makeMap(instr.Type().Underlying().(*types.Map).Key(), 0)
+		fr.set(instr, makeMap(instr.Type().Underlying().(*types.Map).Key(), 0))
 
 	case *ssa.Range:
-		fr.env[instr] = rangeIter(fr.i, fr.get(instr.X), instr.X.Type())
+		fr.set(instr, rangeIter(fr.i, fr.get(instr.X), instr.X.Type()))
 
 	case *ssa.Next:
-		fr.env[instr] = fr.get(instr.Iter).(iter).next()
+		fr.set(instr, fr.get(instr.Iter).(iter).next())
 
 	case *ssa.FieldAddr:
 		p := fr.get(instr.X).(*value)
 		if p == nil {
 			panic(runtimeError("invalid memory address or nil pointer dereference"))
 		}
-		fr.env[instr] = &(*p).(structure)[instr.Field]
+		fr.set(instr, &(*p).(structure)[instr.Field])
 
 	case *ssa.Field:
-		fr.env[instr] = fr.get(instr.X).(structure)[instr.Field]
+		fr.set(instr, fr.get(instr.X).(structure)[instr.Field])
 
 	case *ssa.IndexAddr:
 		x := fr.get(instr.X)
@@ -387,13 +390,13 @@ func visitInstr(fr *frame, instr ssa.Instruction) continuation {
 		}
 		if it, ok := idx.(*smt.Term); ok {
 			it = fr.i.boundsCheck(it, instr.Index.Type(), len(elems))
-			fr.env[instr] = symElemPtr{elems, it}
+			fr.set(instr, symElemPtr{elems, it})
 		} else {
 			k := asInt64(idx)
 			if k < 0 || k >= int64(len(elems)) {
 				panic(runtimeError(fmt.Sprintf("index out of range [%d] with length %d", k, len(elems))))
 			}
-			fr.env[instr] = &elems[k]
+			fr.set(instr, &elems[k])
 		}
 
 	case *ssa.Index:
@@ -403,13 +406,13 @@ func visitInstr(fr *frame, instr ssa.Instruction) continuation {
 		case array:
 			if it, ok := idx.(*smt.Term); ok {
 				it = fr.i.boundsCheck(it, instr.Index.Type(), len(x))
-				fr.env[instr] = fr.i.loadSymElem(symElemPtr{x, it})
+				fr.set(instr, fr.i.loadSymElem(symElemPtr{x, it}))
 			} else {
 				k := asInt64(idx)
 				if k < 0 || k >= int64(len(x)) {
 					panic(runtimeError(fmt.Sprintf("index out of range [%d] with length %d", k, len(x))))
 				}
-				fr.env[instr] = x[k]
+				fr.set(instr, x[k])
 			}
 		case string, sstr:
 			n := strLen(x)
@@ -417,7 +420,7 @@ func visitInstr(fr *frame, instr ssa.Instruction) continuation {
 			if it, ok := idx.(*smt.Term); ok {
 				it = fr.i.boundsCheck(it, instr.Index.Type(), n)
 				if _, iss := x.(string); iss {
-					fr.env[instr] = fr.i.loadSymElem(symElemPtr{strBytes(x), it})
+					fr.set(instr, fr.i.loadSymElem(symElemPtr{strBytes(x), it}))
 					break
 				}
 				k = int64(fr.i.path.concretize(it))
@@ -429,16 +432,16 @@ func visitInstr(fr *frame, instr ssa.Instruction) continuation {
 			}
 			switch x := x.(type) {
 			case string:
-				fr.env[instr] = x[k]
+				fr.set(instr, x[k])
 			case sstr:
-				fr.env[instr] = x.b[k]
+				fr.set(instr, x.b[k])
 			}
 		default:
 			panic(fmt.Sprintf("unexpected x type in Index: %T", x))
 		}
 
 	case *ssa.Lookup:
-		fr.env[instr] = lookup(fr.i, instr, fr.get(instr.X), fr.get(instr.Index))
+		fr.set(instr, lookup(fr.i, instr, fr.get(instr.X), fr.get(instr.Index)))
 
 	case *ssa.MapUpdate:
 		m := fr.get(instr.Map)
@@ -456,20 +459,20 @@ func visitInstr(fr *frame, instr ssa.Instruction) continuation {
 		}
 
 	case *ssa.TypeAssert:
-		fr.env[instr] = typeAssert(fr.i, instr, fr.i.forceIface(fr, fr.get(instr.X)))
+		fr.set(instr, typeAssert(fr.i, instr, fr.i.forceIface(fr, fr.get(instr.X))))
 
 	case *ssa.MakeClosure:
 		var bindings []value
 		for _, binding := range instr.Bindings {
 			bindings = append(bindings, fr.get(binding))
 		}
-		fr.env[instr] = &closure{instr.Fn.(*ssa.Function), bindings}
+		fr.set(instr, &closure{instr.Fn.(*ssa.Function), bindings})
 
 	case *ssa.Phi:
 		log.Fatal("unreachable") // phis are processed at block entry
 
 	case *ssa.Select:
-		fr.env[instr] = fr.i.doSelect(fr, instr)
+		fr.set(instr, fr.i.doSelect(fr, instr))
 
 	default:
 		panic(fmt.Sprintf("unexpected instruction: %T", instr))
@@ -563,8 +566,7 @@ func callSSA(i *interpreter, caller *frame, callpos token.Pos, fn *ssa.Function,
 		}
 	}
 	if fn.Parent() == nil {
-		name := fn.String()
-		if ext := externals[name]; ext != nil {
+		if ext := externalOf(fn); ext != nil {
 			if i.mode&EnableTracing != 0 {
 				fmt.Fprintln(os.Stderr, "\t(external)")
 			}
@@ -575,7 +577,7 @@ func callSSA(i *interpreter, caller *frame, callpos token.Pos, fn *ssa.Function,
 			return nil
 		}
 		if fn.Blocks == nil {
-			unsupported("no code for function: %s", name)
+			unsupported("no code for function: %s", fn.String())
 		}
 	}
 	if fn.Pkg != nil && !i.initOK(fn.Pkg.Pkg.Path()) && i.cfg.denyFn(fn) {
@@ -588,18 +590,19 @@ func callSSA(i *interpreter, caller *frame, callpos token.Pos, fn *ssa.Function,
 		panic("interp requires ssa.BuilderMode to include InstantiateGenerics to execute generics")
 	}
 
-	fr.env = make(map[ssa.Value]value)
+	fr.info = infoOf(fn)
+	fr.env = make([]value, fr.info.n)
 	fr.block = fn.Blocks[0]
 	fr.locals = make([]value, len(fn.Locals))
 	for i, l := range fn.Locals {
 		fr.locals[i] = zero(mustDeref(l.Type()))
-		fr.env[l] = &fr.locals[i]
+		fr.set(l, &fr.locals[i])
 	}
 	for i, p := range fn.Params {
-		fr.env[p] = args[i]
+		fr.set(p, args[i])
 	}
 	for i, fv := range fn.FreeVars {
-		fr.env[fv] = env[i]
+		fr.set(fv, env[i])
 	}
 	thr := i.sched.cur
 	savedFrame := thr.frame
@@ -709,7 +712,7 @@ func executePhis(fr *frame) []ssa.Instruction {
 			fr.phitemps = append(fr.phitemps, fr.get(phi.Edges[predIndex]))
 		}
 		for i, phi := range phis {
-			fr.env[phi.(*ssa.Phi)] = fr.phitemps[i]
+			fr.set(phi.(*ssa.Phi), fr.phitemps[i])
 		}
 	}
 	return nonPhis
@@ -735,6 +738,9 @@ func doRecover(caller *frame) value {
 			return p.v
 		case runtime.Error:
 			// The interpreter encountered a runtime error.
+			if mine, ok := p.(runtimeError); ok {
+				return iface{caller.i.runtimeErrorString, string(mine)}
+			}
 			return iface{caller.i.runtimeErrorString, p.Error()}
 		case string:
 			// The interpreter explicitly called panic().
@@ -746,3 +752,70 @@ func doRecover(caller *frame) value {
 	return iface{}
 }
 
+
+// fnInfo numbers the SSA values of a function so that a frame's environment
+// is a slice instead of a map.
+type fnInfo struct {
+	idx map[ssa.Value]int
+	n   int
+}
+
+var fnInfos sync.Map // *ssa.Function -> *fnInfo
+
+func infoOf(fn *ssa.Function) *fnInfo {
+	if v, ok := fnInfos.Load(fn); ok {
+		return v.(*fnInfo)
+	}
+	inf := &fnInfo{idx: map[ssa.Value]int{}}
+	add := func(v ssa.Value) {
+		if _, ok := inf.idx[v]; !ok {
+			inf.idx[v] = inf.n
+			inf.n++
+		}
+	}
+	for _, p := range fn.Params {
+		add(p)
+	}
+	for _, fv := range fn.FreeVars {
+		add(fv)
+	}
+	for _, l := range fn.Locals {
+		add(l)
+	}
+	for _, b := range fn.Blocks {
+		for _, ins := range b.Instrs {
+			if v, ok := ins.(ssa.Value); ok {
+				add(v)
+			}
+		}
+	}
+	if fn.Recover != nil {
+		for _, ins := range fn.Recover.Instrs {
+			if v, ok := ins.(ssa.Value); ok {
+				add(v)
+			}
+		}
+	}
+	fnInfos.Store(fn, inf)
+	return inf
+}
+
+func (fr *frame) set(key ssa.Value, v value) { fr.env[fr.info.idx[key]] = v }
+
+func (fr *frame) lookup(key ssa.Value) value { return fr.env[fr.info.idx[key]] }
+
+var extCache sync.Map // *ssa.Function -> externalFn (or nil)
+
+func externalOf(fn *ssa.Function) externalFn {
+	if v, ok := extCache.Load(fn); ok {
+		e, _ := v.(externalFn)
+		return e
+	}
+	e := externals[fn.String()]
+	if e == nil {
+		extCache.Store(fn, false)
+	} else {
+		extCache.Store(fn, e)
+	}
+	return e
+}
